@@ -28,6 +28,10 @@ func ensuresGoal(c bool) {
 	}
 }
 
+// ensuresTrusted is a postcondition that callers may assume but that is not checked on the
+// function body (used for definitional clauses; every use is listed as an assumption).
+func ensuresTrusted(c bool) {}
+
 func assert(c bool) {
 	if !c {
 		panic("verif: assert violated")
@@ -121,4 +125,4 @@ func bytesEq[A, B ~[]byte | ~string](a A, b B) bool { return string(a) == string
 // loopIndex names the hidden index of the innermost enclosing range loop in loop invariants.
 var loopIndex int
 
-var _ = []any{requires, ensures, ensuresGoal, assert, assume, imp, iff, forall, exists, modifiesTail, modifiesElems, modifiesPtr, modifiesMap, modifiesAll, freshSlice, sameBase, sameArray, disjointFromTail, suffixOf, viewOf, offsetIn, loopIndex}
+var _ = []any{requires, ensures, ensuresGoal, ensuresTrusted, assert, assume, imp, iff, forall, exists, modifiesTail, modifiesElems, modifiesPtr, modifiesMap, modifiesAll, freshSlice, sameBase, sameArray, disjointFromTail, suffixOf, viewOf, offsetIn, loopIndex}
